@@ -730,8 +730,10 @@ async fn round_targets_case(c: RoundCfg, rounds: usize, t: &mut Tally) -> Result
         if deadset.len() > live.len() && !targets.iter().any(|a| deadset.contains(a)) {
             return Err((format!("{} dead peers outnumber {} live ones, yet the round contacted no dead peer", deadset.len(), live.len()), "round-skipped-the-dead".into()));
         }
-        if !live.is_empty() && targets.iter().filter(|a| live.contains(a)).count() < live.len().min(3) {
-            return Err((format!("{} live peers are known but the round contacted only {} of them", live.len(), targets.iter().filter(|a| live.contains(a)).count()), "round-skipped-live-peers".into()));
+        // (the statement says "at most three": fewer is allowed; but a round that knows live peers and
+        // contacts none of them does not gossip at all)
+        if !live.is_empty() && !targets.iter().any(|a| live.contains(a)) {
+            return Err((format!("{} live peers are known but the round contacted none of them", live.len()), "round-skipped-live-peers".into()));
         }
     }
     if let Some(h) = d.handle.take() {
@@ -745,7 +747,7 @@ async fn round_targets_case(c: RoundCfg, rounds: usize, t: &mut Tally) -> Result
 pub fn round_targets(tier: Tier) -> Part {
     let mut part = Part::new("server/round-targets");
     let rounds = tier.pick(3usize, 12usize);
-    part.rule = format!("the real gossip server over the scripted transport, with and without an extra liveness predicate (READY == true); membership built through real messages: 0..2 live peers satisfying the predicate, 0..2 live peers not satisfying it, 0..{} dead peers (one heartbeat only); seed: none / an unknown address / a ready peer / a not-ready peer / a dead peer / the shared list (own advertised address + unknown address) on a node that listens on 0.0.0.0 (listen address != advertised address; no SYN may go to the node itself and the real seed must be contacted when no peer is live); also with a 60 s dead-node grace period and dead peers that have been dead for more than half of it (scheduled for deletion, still in the dead set); {rounds} consecutive rounds observed per configuration; oracle, evaluated on the SYN destinations of each round against Chitchat::live_nodes() / dead_nodes() / known members read under the lock just before the round: the destinations split into at most 3 distinct peers of the pool (live peers, or all known peers when none is live) + at most one dead peer + at most one seed; a seed is contacted when no live peer is known; a dead peer is contacted when dead outnumber live; min(3, live) live peers are contacted. The server's own random generator is not scripted here (the `select` engine enumerates the generator's answers on the selection function itself): the oracle holds for every draw, and a wrong pool is exposed deterministically by the configurations in which it forces a destination outside the allowed sets; non-trivial = configurations with live peers hidden by the predicate", tier.pick(4, 5));
+    part.rule = format!("the real gossip server over the scripted transport, with and without an extra liveness predicate (READY == true); membership built through real messages: 0..2 live peers satisfying the predicate, 0..2 live peers not satisfying it, 0..{} dead peers (one heartbeat only); seed: none / an unknown address / a ready peer / a not-ready peer / a dead peer / the shared list (own advertised address + unknown address) on a node that listens on 0.0.0.0 (listen address != advertised address; no SYN may go to the node itself and the real seed must be contacted when no peer is live); also with a 60 s dead-node grace period and dead peers that have been dead for more than half of it (scheduled for deletion, still in the dead set); {rounds} consecutive rounds observed per configuration; oracle, evaluated on the SYN destinations of each round against Chitchat::live_nodes() / dead_nodes() / known members read under the lock just before the round: the destinations split into at most 3 distinct peers of the pool (live peers, or all known peers when none is live) + at most one dead peer + at most one seed; a seed is contacted when no live peer is known; a dead peer is contacted when dead outnumber live; at least one live peer is contacted when one is known. The server's own random generator is not scripted here (the `select` engine enumerates the generator's answers on the selection function itself): the oracle holds for every draw, and a wrong pool is exposed deterministically by the configurations in which it forces a destination outside the allowed sets; non-trivial = configurations with live peers hidden by the predicate", tier.pick(4, 5));
     let dmax = tier.pick(4usize, 5usize);
     let mut cfgs = vec![];
     for (predicate, old_dead) in [(false, false), (true, false), (false, true)] {
